@@ -306,6 +306,20 @@ def cat_case(item, ctx=None):
       msgs.append("category row %s unit %d -> %.6g, expected kernel row value %.6g" %
                   (X[r].tolist(), u, out[r, u], ref[r, u]))
       break
+    # one example at a time: same value, batch dimension kept
+    for r in sorted({0, X.shape[0] - 1}):
+      o1 = layer(x[r:r + 1])
+      f1 = _form_msg(o1, item["split"], units, 1)
+      if isinstance(o1, (list, tuple)):
+        o1 = tf.concat(o1, axis=1)
+      o1 = np.asarray(o1, dtype=np.float64)
+      if f1 or o1.shape != (1, units) or not np.allclose(o1[0], out[r], atol=1e-6):
+        msgs.append("batch-of-one call on category row %s: %s (batched call gives %s)" %
+                    (X[r].tolist(), f1 or o1.tolist(), out[r].tolist()))
+        break
+      total += units
+    if msgs:
+      break
   if ctx is not None:
     ctx.add(evaluations=total, nontrivial=total - 1, traces=total)
     ctx.tab("categorical_cases", "%s/default=%s" % (item["layout"], default), total)
